@@ -10,8 +10,11 @@ Section Ioni.
   Notation M := (M T).
 
   (** detail::IoniFinalStateHelper::operator() *)
-  Definition ioni_costheta (e_inc p_inc m_inc t_e m_e : T) : T :=
+  Definition ioni_costheta_raw (e_inc p_inc m_inc t_e m_e : T) : T :=
     t_e * (e_inc + m_inc + m_e) / (nsqrt (t_e * (t_e + n2 * m_e)) * p_inc).
+  (** min(..., 1): bounded since /repo 14a7210 *)
+  Definition ioni_costheta (e_inc p_inc m_inc t_e m_e : T) : T :=
+    nmin (ioni_costheta_raw e_inc p_inc m_inc t_e m_e) n1.
   Definition ioni_final (e_inc : T) (dir : vec3 T) (p_inc m_inc t_e m_e : T) : M (interaction T) :=
     let momentum := nsqrt (t_e * (t_e + n2 * m_e)) in
     let costheta := ioni_costheta e_inc p_inc m_inc t_e m_e in
